@@ -219,6 +219,10 @@ func pick(rng *rand.Rand, ss []string) string { return ss[rng.Intn(len(ss))] }
 // to switch features off while investigating).
 type Opts struct {
 	NoDupInFile bool
+	// DefaultProfilesOnly: every profile is activated by <activeByDefault>
+	// (true, sometimes false) and by nothing else: the stratum of the API pass,
+	// whose entry point knows neither a JDK nor an OS.
+	DefaultProfilesOnly bool
 }
 
 type chain struct {
@@ -390,6 +394,16 @@ func (g *genState) newProfile(c *chain, fileIdx int) *Profile {
 	rng := g.rng
 	p := &g.l.Poms[fileIdx]
 	pr := Profile{ID: fmt.Sprintf("p%d", len(p.Profiles))}
+	if g.opt.DefaultProfilesOnly {
+		pr.Default = "true"
+		g.tag("profile:default")
+		if rng.Intn(5) == 0 {
+			pr.Default = "false"
+			g.tag("profile:default-false")
+		}
+		p.Profiles = append(p.Profiles, pr)
+		return &p.Profiles[len(p.Profiles)-1]
+	}
 	switch rng.Intn(8) {
 	case 0, 1:
 		pr.Default = "true"
